@@ -44,7 +44,7 @@ func c03JudgeAlias(c *mon.Ctx, in *c03Alias) {
 	}
 	c.Eval(1)
 	flag := sighash.Flag(in.HashType)
-	tx := s.Build()
+	tx := s.BuildShared()
 	call := func() (out []byte, err error) {
 		if in.Via == "preimage" {
 			return tx.CalcInputPreimageLegacy(in.Idx, flag)
